@@ -155,9 +155,10 @@ known("F5e", SCP,
       case("C08", "known", "t0: spawn(1); NfWait(n=0); Park; join(1) || t1: NfNotify(n=0); NfNotify(n=0); NfNotify(n=0)"))
 
 known("F12", ["C02", "C18"],
-      "SeqCst fences are ordered by loom's single execution order (a global clock joined both ways): an RC11-consistent outcome whose "
-      "SeqCst-fence order runs against po U rf is never explored, e.g. x2.store(1,sc);fence(sc);x0.store(1,rlx) || x0.load(rlx)=1;"
-      "x1.store(1,rlx) || x1.load(rlx)=1;fence(sc);x2.load(sc)=0 (src/rt/thread.rs seq_cst_fence)",
+      "SeqCst events are ordered by loom's single execution order (SeqCst fences join a global clock both ways; a SeqCst load never "
+      "reads a SeqCst store older than the newest executed one): an RC11-consistent outcome whose SeqCst order runs against po U rf is "
+      "never explored, e.g. x2.store(1,sc);fence(sc);x0.store(1,rlx) || x0.load(rlx)=1;x1.store(1,rlx) || x1.load(rlx)=1;fence(sc);"
+      "x2.load(sc)=0 (src/rt/thread.rs seq_cst_fence, src/rt/atomic.rs match_load_to_stores)",
       ["missing_outcome_fence_order"], "label:sc_fence_order",
       case("C02", "known", JOIN3 + "ld(x0,rlx); ld(x1,rlx); ld(x2,rlx) || t1: st(x2,1,sc); fence(sc); st(x0,1,rlx) || "
            "t2: ld(x0,rlx); st(x1,1,rlx) || t3: ld(x1,rlx); fence(sc); ld(x2,sc)"))
